@@ -178,6 +178,8 @@ def main(argv):
     plan = mod.plan(tier, seed, frozenset(switches))
     tasks = [(fn, kw) for fn, kwargs_list in plan for kw in kwargs_list]
     stats.merge(core.run_shards(mod.__name__, tasks))
+    if hasattr(mod, "finalize"):
+        mod.finalize(stats)
     harness_errors = [n for n in stats.notes if n.startswith("HARNESS-ERROR")]
     seen = set()
     for fl in stats.failures:
